@@ -374,15 +374,23 @@ def openRoller (p : Policy) (fs : FS) (now : Nat) : FS × RState :=
   let (fs1, sz) := fsOpen fs (baseName p)
   (fs1, { size := sz, pstart := periodStart p.gran now })
 
-/-- `write_internal` with a record that is written in one piece -/
-def write (p : Policy) (fs : FS) (st : RState) (r : Nat × Nat) (now : Nat) : FS × RState :=
-  let (fs, st) := if periodStart p.gran now > st.pstart then roll p fs st now else (fs, st)
-  if r.2 = 0 then (fs, st)
+/-- first half of `write_internal`: roll if `now` lies in a later period than the current one -/
+def writePhase1 (p : Policy) (fs : FS) (st : RState) (now : Nat) : FS × RState :=
+  if periodStart p.gran now > st.pstart then roll p fs st now else (fs, st)
+
+/-- second half: append the record (written in one piece), add its length, roll if the size limit is reached;
+an empty buffer (`bytes_written == 0`) does nothing -/
+def writePhase2 (p : Policy) (s : FS × RState) (r : Nat × Nat) (now : Nat) : FS × RState :=
+  if r.2 = 0 then s
   else
-    let fs := fsAppend fs (baseName p) r
-    let st := { st with size := st.size + r.2 }
     match p.maxSize with
-    | some m => if st.size ≥ m then roll p fs st now else (fs, st)
-    | none => (fs, st)
+    | some m =>
+      if s.2.size + r.2 ≥ m then roll p (fsAppend s.1 (baseName p) r) { s.2 with size := s.2.size + r.2 } now
+      else (fsAppend s.1 (baseName p) r, { s.2 with size := s.2.size + r.2 })
+    | none => (fsAppend s.1 (baseName p) r, { s.2 with size := s.2.size + r.2 })
+
+/-- `write_internal` -/
+def write (p : Policy) (fs : FS) (st : RState) (r : Nat × Nat) (now : Nat) : FS × RState :=
+  writePhase2 p (writePhase1 p fs st now) r now
 
 end Fv.Log.Roller
